@@ -705,3 +705,10 @@ package larking
 //@   loop 2 invariant -1 <= rangeindex#2 && rangeindex#2 < len(specs) && 0 <= rangeindex && rangeindex < len(offers)
 //@   loop 2 invariant same(offer, offers[rangeindex]) && (bestOffer == "identity" || OneOf(bestOffer, offers, rangeindex))
 //@   loop 2 decreases len(specs) - rangeindex#2
+
+// NewMux: the offers handed to content negotiation are keys of the matching
+// registry (a negotiated encoding must name a registered compressor).
+//@ func NewMux serves C04 partial ghost
+//@   witness verifWitnessNewMux
+//@   assert at "muxOpts.contentTypeOffers = append(muxOpts.contentTypeOffers, k)" [content-type-offers-are-codecs C04] maphas(muxOpts.codecs, k#2)
+//@   assert at "muxOpts.encodingTypeOffers = append(muxOpts.encodingTypeOffers, k)" [encoding-offers-are-compressors C04] maphas(muxOpts.compressors, k#4)
